@@ -1757,6 +1757,17 @@ func (m *repoManager) makeMaster(newMasterUUID dvid.UUID, oldMasterBranchName st
 	if newMasterNode.branch == "" {
 		return fmt.Errorf("designated node is already on the master branch")
 	}
+	// The old master versions need a name of their own that uuid:branch can address.
+	if oldMasterBranchName == "master" || strings.Contains(oldMasterBranchName, "~") {
+		return fmt.Errorf("cannot rename the old master branch to %q", oldMasterBranchName)
+	}
+	if oldMasterBranchName != newMasterNode.branch {
+		for _, node := range r.dag.nodes {
+			if node.branch == oldMasterBranchName {
+				return ErrBranchUnique
+			}
+		}
+	}
 
 	// Get master branch that must be sibling.
 	if len(newMasterNode.parents) == 0 {
